@@ -6,6 +6,8 @@ mod c09;
 mod c17;
 mod c18;
 mod c19;
+mod fresh;
+mod maproot;
 
 thread_local! { pub static LAST_PANIC_LOC: std::cell::RefCell<String> = const { std::cell::RefCell::new(String::new()) }; }
 
@@ -39,6 +41,8 @@ fn main() {
         "c17" => c17::run(thorough, only.as_deref()),
         "c18" => c18::run(thorough, only.as_deref()),
         "c19" => c19::run(thorough, only.as_deref()),
+        "maproot" => maproot::run(thorough, only.as_deref()),
+        "fresh" => fresh::run(thorough, only.as_deref()),
         _ => {
             eprintln!("unknown grid {which}");
             std::process::exit(2)
